@@ -4,7 +4,8 @@ output, for inputs with ANY number of documents (including none).
 Reader path (`while de.end().is_err() { output.transcode_from(&mut de)?; }`): a document is offered only when `end()` has
 just reported that input remains (precondition-contract on `transcode_from`), exactly one offer per remaining-input
 report, and `Ok(())` only after `end()` reported the end -- so an empty / whitespace-only reader input contributes
-nothing and does not fail (C03, N = 0), and nothing is offered after the end.
+nothing and does not fail (C03, N = 0), and nothing is offered after the end; the loop is LEFT only when `end()` returned Ok
+(loop `ensures at_end(&de)`): an I/O error or any other error of `end()` cannot end the translation with Ok (C12).
 Slice path (`for value in de.into_iter::<Value>() { output.transcode_value(value?)?; }`): every value the stream iterator
 yields is offered exactly once, in order; the first error stops the loop and is returned.
 
@@ -55,6 +56,14 @@ pub mod serde_json {
     use vstd::prelude::*;
     #[verifier::external_body] pub struct Error { _e: () }
     impl super::de::Error for Error {}
+    // serde_json's error categories (uninterpreted: nothing links a category to "the input has ended")
+    pub uninterp spec fn err_category(e: &Error) -> int;
+    impl Error {
+        #[verifier::external_body] pub fn is_io(&self) -> (r: bool) ensures r == (err_category(self) == 0), { unimplemented!() }
+        #[verifier::external_body] pub fn is_syntax(&self) -> (r: bool) ensures r == (err_category(self) == 1), { unimplemented!() }
+        #[verifier::external_body] pub fn is_data(&self) -> (r: bool) ensures r == (err_category(self) == 2), { unimplemented!() }
+        #[verifier::external_body] pub fn is_eof(&self) -> (r: bool) ensures r == (err_category(self) == 3), { unimplemented!() }
+    }
     #[verifier::external_body] pub struct StrRead<'a> { _r: std::marker::PhantomData<&'a str> }
     #[verifier::external_body] #[verifier::reject_recursive_types(R)] pub struct IoRead<R> { _r: std::marker::PhantomData<R> }
     #[verifier::external_body] #[verifier::reject_recursive_types(R)] pub struct Deserializer<R> { _r: std::marker::PhantomData<R> }
@@ -144,16 +153,21 @@ use input::Input;
 
 # slice loop: one offer per value the stream yields, in order
 FOR_TO = (r'let ghost n0 = out_count(&output); let mut verus_iter = \2; '
-          r'loop invariant !serde_json::stream_done(&verus_iter), out_count(&output) == n0 + serde_json::yielded(&verus_iter), '
+          r'loop invariant_except_break !serde_json::stream_done(&verus_iter), invariant out_count(&output) == n0 + serde_json::yielded(&verus_iter), '
           r'{ let \1 = match verus_iter.next() { None => break, Some(verus_item) => verus_item };')
-READER_INV = '''invariant true,'''
+# C03 / C12 (reader path): the loop is left only when end() has reported that nothing but whitespace remains -- a reader
+# fault or any other error of end() cannot end the translation with Ok
+READER_INV = '''invariant true,
+        ensures serde_json::at_end(&de),'''
 
 ITEMS = [
     dict(src='repo:src/input.rs', kind='enum', name='Input', drop_vis=True, wrap=('    pub', '')),
     dict(raw=INPUT_TAIL),
     dict(src='repo:src/json.rs', kind='fn', name='transcode',
-         contract=dict(ret='r', spec='ensures true,', attrs=['#[verifier::exec_allows_no_decreases_clause]', '#[verifier::loop_isolation(false)]'],   # termination = the input ends; not proved
+         contract=dict(ret='r', spec='ensures true,', attrs=['#[verifier::exec_allows_no_decreases_clause]'],   # termination = the input ends; not proved
                        prologue='broadcast use axiom_de_has_input;',
+                       loops=[dict(ordinal=1, clauses=READER_INV)],
+                       inserts_all=[dict(after=r'\b(while\s[^{]*|loop\s*)\{', text='broadcast use axiom_de_has_input;', count=1)],   # kind left open: a `loop` with a break is held to the same exit condition
                        rewrites=[dict(find=r'for\s+(\w+)\s+in\s+([^{]+?)\s*\{', to=FOR_TO, expand=True)])),
 ]
 
